@@ -668,6 +668,7 @@ Proof.
   { destruct r as [|e r2]; [discriminate|].
     destruct (e =? 91).
     { destruct (cte_hex r2 false (Some 0)) as [[[v|] r3]|] eqn:H; try discriminate.
+      destruct (cte_scalar_ok v); [|discriminate].
       apply cte_hex_len in H.
       destruct (acc_rune_spec (rune_len v) s (rune_len_le4 v) I) as (I2 & L2).
       destruct (IH _ _ _ E I2) as (I3 & L3). split; [exact I3|].
